@@ -266,7 +266,7 @@ aU3(p) == U3(p) /\ Track
 aS1(p) == S1(p) /\ Track
 aS2(p) == S2(p) /\ Track
 aDS(p) == DS(p) /\ Track
-Next == \E p \in Procs :
+PNext(p) ==
            \/ (\E k \in Keys, h \in Lvls : Insert(p, k, h))
            \/ (\E k \in Keys : Delete(p, k) \/ Lookup(p, k))
            \/ (\E n \in 1..MaxNodes : DeleteNode(p, n))
@@ -274,7 +274,14 @@ Next == \E p \in Procs :
            \/ aI2(p) \/ aU1(p) \/ aU3(p) \/ aS1(p) \/ aS2(p) \/ aDS(p)
            \/ SeekFirst(p) \/ (\E k \in Keys : Seek(p, k)) \/ ItNext(p)
            \/ aIT0(p) \/ aIN1(p) \/ aIN2(p)
+Next == \E p \in Procs : PNext(p)
 Spec == Init /\ [][Next]_vars
+(* liveness (growth): a goroutine inside a call keeps running; nobody is obliged to start a call.  Then every call
+   returns -- no search, insert, delete or iterator step can retry for ever once the other calls have finished
+   (the structure is lock-free: a retry is always caused by another call's progress, and calls are finitely many). *)
+InCall(p) == loc[p].pc # "idle" /\ PNext(p)
+LiveSpec == Spec /\ \A p \in Procs : WF_vars(InCall(p))
+EveryCallReturns == \A p \in Procs : (loc[p].pc # "idle") ~> (loc[p].pc = "idle")
 
 (* ---- properties ---- *)
 Quiescent == \A p \in Procs : loc[p].pc = "idle"
